@@ -304,6 +304,14 @@ func PreMarshal(element Element, encoder *xml.Encoder, start *xml.StartElement) 
 				Name:  xml.Name{Local: "xmlns:olive"},
 				Value: "http://olive.io/spec/BPMN/MODEL",
 			},
+			// expressions are written with an xsi:type attribute that tells
+			// formal from informal ones: without this declaration the parser
+			// does not recognise it and every formal expression comes back
+			// as an informal one
+			xml.Attr{
+				Name:  xml.Name{Local: "xmlns:xsi"},
+				Value: "http://www.w3.org/2001/XMLSchema-instance",
+			},
 		)
 	}
 }
